@@ -16,7 +16,7 @@ import (
 func init() {
 	Register(&Property{
 		ID: "C07",
-		Explanation: "Decides that the keyset pagination mechanics are self-consistent: (R07.1) in GetRelationTuples the ORDER BY column, the column of the strict '>' cursor predicate and the db tag of the field the next token is taken from are the same unique column, the order is ascending, LIMIT is exactly the has-more threshold plus one, the has-more test compares len(rows) with that same threshold, truncation removes exactly one row and the token comes from the last kept row, assigned only in that branch; (R07.2) the same agreement for the traversal's internal paging; (R07.3) page size 0 means the default, a negative page size is rejected, an empty token is the zero cursor; (R07.4) a malformed token (and page size) is a 4xx status-carrying error on every path; (R07.5) the internal consumers (expand, tuple-to-subject-set check) feed the token returned by one call into the next and leave the loop only on an empty token, an error or a finished group. " +
+		Explanation: "Decides that the keyset pagination mechanics are self-consistent: (R07.1) in GetRelationTuples the ORDER BY column, the column of the strict '>' cursor predicate and the db tag of the field the next token is taken from are the same unique column, the order is ascending, LIMIT is exactly the has-more threshold plus one, the has-more test compares len(rows) with that same threshold, truncation removes exactly one row and the token comes from the last kept row, assigned only in that branch; (R07.2) the same agreement for the traversal's internal paging; (R07.3) page size 0 means the default, a negative page size is rejected, an empty token is the zero cursor; (R07.4) a malformed token (and page size) is a 4xx status-carrying error on every path; (R07.6) the chunked look-up that maps a page's ids back to strings advances by exactly the chunk it resolves, so no row of a page comes back with unresolved names; (R07.5) the internal consumers (expand, tuple-to-subject-set check) feed the token returned by one call into the next and leave the loop only on an empty token, an error or a finished group. " +
 			"Not decided: behaviour under concurrent writes beyond what the strict '>' on a unique, immutable key implies; that shard_id is unique (primary key in the migrations, trusted).",
 		Assumptions: []string{
 			"(nid, shard_id) is the primary key of keto_relation_tuples (migrations)",
@@ -333,6 +333,8 @@ func runC07(c *Ctx) {
 	r073(c)
 	r074(c)
 	r075(c, "R07.5")
+	// R07.6 a page is mapped back to strings completely (same rule as R16.6)
+	strideMatchesChunk(c, "R07.6")
 }
 
 func isStringT2(t types.Type) bool {
@@ -746,6 +748,100 @@ func r075(c *Ctx, rule string) {
 					}
 				})
 				var bad []string
+				// every way out of the page loop other than "token empty" depends on this page only
+				// (error, empty page, group done) or on nothing that changes between pages
+				inCycle := func(x *ssa.BasicBlock) bool { return sameCycle(x, b) }
+				var listRes ssa.Value
+				for _, ref := range *call.Referrers() {
+					if ex, ok := ref.(*ssa.Extract); ok && ex.Index == 0 {
+						listRes = ex
+					}
+				}
+				var variant func(v ssa.Value, d int) bool
+				variant = func(v ssa.Value, d int) bool {
+					if v == nil || d > 8 {
+						return false
+					}
+					switch x := v.(type) {
+					case *ssa.Const, *ssa.Parameter, *ssa.FreeVar, *ssa.Global, *ssa.Function:
+						return false
+					case *ssa.Phi:
+						return inCycle(x.Block()) // loop-carried
+					case *ssa.BinOp:
+						return variant(x.X, d+1) || variant(x.Y, d+1)
+					case *ssa.UnOp:
+						if al, ok := x.X.(*ssa.Alloc); ok {
+							// a local cell: variant when it is stored to inside the loop
+							for _, st := range core.CellStores(al) {
+								if st.Parent() == fn && inCycle(st.Block()) {
+									return true
+								}
+							}
+							return false
+						}
+						return variant(x.X, d+1)
+					case *ssa.Convert:
+						return variant(x.X, d+1)
+					case *ssa.Call:
+						return false // judged by the classes below
+					case *ssa.Extract:
+						return false
+					}
+					return false
+				}
+				for _, blk := range fn.Blocks {
+					if !inCycle(blk) || len(blk.Instrs) == 0 {
+						continue
+					}
+					ifi, ok := blk.Instrs[len(blk.Instrs)-1].(*ssa.If)
+					if !ok {
+						continue
+					}
+					leaves := false
+					for _, sc := range blk.Succs {
+						if !inCycle(sc) {
+							leaves = true
+						}
+					}
+					if !leaves {
+						continue
+					}
+					cond := ifi.Cond
+					okExit := false
+					switch x := cond.(type) {
+					case *ssa.Call:
+						okExit = true // g.Done(), errors.Is(...)
+					case *ssa.UnOp:
+						if _, isCall := x.X.(*ssa.Call); isCall {
+							okExit = true
+						}
+					}
+					if _, cx, cy, isCmp := core.BinCmp(cond); isCmp && !okExit {
+						seen = map[ssa.Value]bool{}
+						switch {
+						case types.Identical(cx.Type(), types.Universe.Lookup("error").Type()) && core.IsNilConst(cy):
+							okExit = true
+						case reaches(cx) || reaches(cy):
+							okExit = true // about the page token
+						default:
+							if lc, ok := cx.(*ssa.Call); ok {
+								if bi, ok := lc.Call.Value.(*ssa.Builtin); ok && bi.Name() == "len" && listRes != nil && core.ValueOrigin(lc.Call.Args[0]) == listRes {
+									okExit = true // empty page
+								}
+							}
+							if !okExit && !variant(cx, 0) && !variant(cy, 0) {
+								okExit = true // the same for every page
+							}
+						}
+					}
+					if ph, isPhi := cond.(*ssa.Phi); isPhi && !okExit {
+						_ = ph
+						okExit = true // short-circuit of the loop condition (token / done)
+					}
+					if !okExit {
+						bad = append(bad, fmt.Sprintf("the page loop is left at %s on a condition that changes from page to page and is neither the token, an error, an empty page nor the group being done: later pages are dropped", p.Pos(ifi.Cond.Pos())))
+					}
+				}
 				if !fed {
 					bad = append(bad, "the token passed to the next call is not the token the previous call returned: the same page is fetched again and later pages are never seen")
 				}
